@@ -177,13 +177,16 @@ Proof.
 Qed.
 
 (* ---- consistency of the engine's process table is preserved ---- *)
+(* premise really needed for Engine.apply_update's folding alone (book_apply: deletions first, then registration):
+   with the target inside the moved subtree the attached copy is deleted with the source, and the reported
+   processes would be registered although they are gone.  The full engine step registers only what the store
+   still holds and needs no premise (Consistent2_proofs.engine_consistent_op, .consistent_movep_any) *)
 Theorem consistent_movep vr t here src tgt uid t' rp uid' b b' : cwf t -> consistent_procs t b ->
   starts_with (tgt ++ src) (here ++ src) = false ->
   apply_opv vr t here (OpMoveP D src tgt) uid = Ok (t', rp, uid') ->
   book_apply b rp = Ok b' -> consistent_procs t' b'.
 Proof.
   intros Hw Hc Hs1 Hop Hb.
-  pose proof (fun n p pi => reported_not_under_source vr t here src tgt uid t' rp uid' n p pi Hs1 Hop) as Hnu.
   destruct (movep_inv _ _ _ _ _ _ _ _ _ _ _ _ _ Hop)
     as (node & t0 & t1 & Hne & Hg & Hnone & He & Hcs & Hdl & Hdel & Hrp).
   assert (Hwn : cwf node) by apply (cwf_cget _ _ _ Hw Hg).
@@ -191,25 +194,24 @@ Proof.
                                In (p, pi) (proc_nodes node (tgt ++ src)) /\ pi_step pi = false).
   { intros p pi Hin. rewrite Hrp in Hin. apply filter_In in Hin. destruct Hin as [Hin Hs].
     cbn [snd] in Hs. apply negb_true_iff in Hs. auto. }
-  assert (H2 : forall p pi, In (p, pi) (r_process rp) -> pi_step pi = false ->
-                            forall d0, In d0 (r_deletions rp) -> starts_with p d0 = false).
-  { intros p pi Hin _ d0 Hd0. rewrite Hdel in Hd0. destruct Hd0 as [<-|[]].
-    apply Hin_r in Hin. destruct Hin as [Hin _]. apply (Hnu node p pi Hin). }
-  assert (H3 : NoDup (map fst (filter (fun pp => negb (pi_step (snd pp))) (r_process rp)))).
+  assert (H3 : NoDup (map fst (filter nonstep (r_process rp)))).
   { rewrite Hrp. apply nodup_map_filter, nodup_map_filter. apply proc_nodes_nodup. exact Hwn. }
-  assert (H4 : forall p pi, In (p, pi) (r_process rp) -> pi_step pi = false -> ~ In p (map fst (b_procs b))).
-  { intros p pi Hin _ Hin'. apply Hin_r in Hin. destruct Hin as [Hin _]. apply reported_under in Hin.
+  assert (H4 : forall p, In p (map fst (filter nonstep (r_process rp))) -> ~ In p (map fst (b_procs b))).
+  { intros p Hin Hin'. apply in_map_iff in Hin. destruct Hin as ([p' pi] & Heq & Hin). cbn [fst] in Heq. subst p'.
+    apply in_filter_nonstep in Hin. destruct Hin as [Hin _]. apply Hin_r in Hin. destruct Hin as [Hin _].
+    apply reported_under in Hin.
     rewrite (table_not_under t b _ p Hw Hc Hnone Hin') in Hin. discriminate Hin. }
   destruct Hc as [Hss Hnd].
-  split; [|apply (book_apply_nodup b rp b' Hnd H3 H4 Hb)].
-  intros [q o]. rewrite (book_apply_procs b rp b' q o Hnd H2 H3 H4 Hb).
+  split; [|apply (book_apply_nodup b rp b' Hnd Hb)].
+  intros [q o]. rewrite (book_apply_procs b rp b' q o Hnd (nodup_reports_functional _ H3) Hb).
   rewrite (movep_reports vr t here src tgt uid t' rp uid' q o Hw Hs1 Hop). split.
-  - intros [[Hin Hd0]|(pi & Hin & _ & Ho)].
+  - intros [(Hin & Hd0 & _)|(pi & Hin & _ & Ho)].
     + left. split; [apply Hss; exact Hin|]. apply Hd0. rewrite Hdel. left. reflexivity.
     + right. exists pi. auto.
   - intros [[Hin Hsw]|(pi & Hin & Ho)].
-    + left. split; [apply Hss; exact Hin|]. intros d0 Hd0. rewrite Hdel in Hd0.
-      destruct Hd0 as [<-|[]]. exact Hsw.
+    + left. apply Hss in Hin. split; [exact Hin|]. split.
+      * intros d0 Hd0. rewrite Hdel in Hd0. destruct Hd0 as [<-|[]]. exact Hsw.
+      * intros Hk. apply (H4 q Hk). change q with (fst (q, o)). apply in_map. exact Hin.
     + right. exists pi. destruct (Hin_r q pi Hin) as [_ Hs]. auto.
 Qed.
 
